@@ -215,6 +215,40 @@ def run(ctx):
                         why = "raised %s: %s" % (type(e).__name__, str(e)[:100])
                     if why:
                         ctx.violation("eig/svd/rank-deficient", "svd(%dx%d of rank %d, k=%s, mode=%s): %s" % (m, n, r_, k if kGiven else None, mode, why), {"m": m, "n": n, "k": k})
+                # operators flagged Hermitian (kinds of operator: symmetric indefinite, symmetric positive definite): the singular values are
+                # the MAGNITUDES of the eigenvalues, the requested ones are the extreme magnitudes whatever the signs
+                if m == n and n >= 2:
+                    for hkind in ("indefinite", "posdef"):
+                        nrows += 1
+                        ctx.case(key=("svd-hermitian-flagged", n, k, kGiven, mode, hkind))
+                        g_h = torch.Generator().manual_seed(9000 + 10 * n + k + ctx.seed)
+                        Q, _ = torch.linalg.qr(torch.randn(n, n, generator=g_h, dtype=DT))
+                        ev = torch.arange(1, n + 1, dtype=DT) * 0.7 + 0.3
+                        if hkind == "indefinite":
+                            ev = ev * torch.tensor([(-1.0) ** (i + 1) for i in range(n)], dtype=DT)      # largest magnitudes alternate in sign
+                        Amat = (Q * ev) @ Q.T
+                        Amat = 0.5 * (Amat + Amat.T)
+                        why = None
+                        try:
+                            with torch.no_grad():
+                                u, s, vh = xitorch.linalg.svd(LinearOperator.m(Amat, is_hermitian=True), k=k if kGiven else None, mode=mode)
+                            kk = len(idx)
+                            sref = np.sort(np.abs(ev.numpy()))
+                            if tuple(u.shape) != (n, kk) or tuple(s.shape) != (kk,) or tuple(vh.shape) != (kk, n):
+                                why = "shapes u%s s%s vh%s" % (tuple(u.shape), tuple(s.shape), tuple(vh.shape))
+                            elif float(s.min()) < 0:
+                                why = "negative singular value"
+                            elif not np.allclose(np.sort(s.numpy()), sref[[i - 1 for i in idx]], atol=1e-8):
+                                why = "singular values %s are not the requested extreme ones %s (eigenvalues %s)" % (s.tolist(), sref[[i - 1 for i in idx]].tolist(), ev.tolist())
+                            elif not torch.allclose(u.T @ u, torch.eye(kk, dtype=DT), atol=1e-7) or not torch.allclose(vh @ vh.T, torch.eye(kk, dtype=DT), atol=1e-7):
+                                why = "factors are not orthonormal"
+                            elif not torch.allclose(Amat @ vh.T, u * s, atol=1e-7):
+                                why = "A v_i != s_i u_i"
+                        except Exception as e:
+                            why = "raised %s: %s" % (type(e).__name__, str(e)[:100])
+                        if why:
+                            ctx.violation("eig/svd/hermitian-flagged", "svd(%dx%d symmetric %s operator flagged Hermitian, k=%s, mode=%s): %s" % (n, n, hkind, k if kGiven else None, mode, why),
+                                          {"n": n, "k": k, "mode": mode, "kind": hkind})
     # ---- Davidson model and traces
     base = dict(MaxNA=6, MaxIter=8, KeepBest=True)
     t, cf = tlcmod.gen_mc(ctx.work, "Davidson", "MC_Dav", base, invariants=["Bounded", "AppliedOncePerVector", "ReturnsBest", "Terminates"])
@@ -226,7 +260,7 @@ def run(ctx):
     from vlib import layoutinv
     layoutinv.replay(ctx, ["symeig:exact", "symeig:davidson", "svd"], "eig")
     from vlib import bufferreuse
-    bufferreuse.replay(ctx, ["linop-instance:symeig", "symeig:davidson"], "eig")
+    bufferreuse.replay(ctx, ["linop-instance:symeig", "symeig:davidson", "linop-instance:symeig-M"], "eig")
     c2 = dict(base)
     c2["KeepBest"] = False
     t, cf = tlcmod.gen_mc(ctx.work, "Davidson", "MC_Dav_dev", c2, invariants=["ReturnsBest"])
